@@ -87,13 +87,23 @@ def build(chk):
                 k = nz(pre + '_k', free=(pre in ('o', 'g0')))
                 if not terms and allow_const_only and P.choose(2):
                     return M.function('Constant', k), SymFn([([], k)])
-                return M.function('Linear', M.linear(terms, k)), SymFn([([i], c) for i, c in terms] + [([], k)])
+                sf = SymFn([([i], c) for i, c in terms] + [([], k)])
+                if variant == 'representations':
+                    # the same linear function stored in another arm of the oneof (wire-legal for a linear instance)
+                    rep = P.choose(4)
+                    if rep == 1:      # quadratic arm without quadratic entries
+                        return M.function('Quadratic', M.quadratic([], M.linear(terms, k))), sf
+                    if rep == 2:      # quadratic arm with an explicit zero entry
+                        return M.function('Quadratic', M.quadratic([(IDS[0], IDS[1], ZERO)], M.linear(terms, k))), sf
+                    if rep == 3:      # polynomial arm, degree <= 1, constant monomial first, terms in reverse order
+                        return M.function('Polynomial', M.polynomial([([], k)] + [([i], c) for i, c in reversed(terms)])), sf
+                return M.function('Linear', M.linear(terms, k)), sf
             used_ids = IDS[:2] if variant != 'all-used' else IDS
             obj = lin('o', used_ids)
             ncons = P.choose(3) if variant == 'constraints' else 1
             cons = []
             for ci in range(ncons):
-                ids = [[IDS[0]], [IDS[1], IDS[0]], []][P.choose(3)] if variant == 'constraints' else [IDS[0]]
+                ids = [[IDS[0]], [IDS[1], IDS[0]], []][P.choose(3)] if variant == 'constraints' else [IDS[1], IDS[0]] if variant == 'representations' else [IDS[0]]
                 cons.append(Con([5, 11][ci], [EQ, LE][P.choose(2)], lin(f'g{ci}', ids, allow_const_only=True), name=f'name{ci}'))
             spec = Inst(sense=sense, objective=obj, vars=[Var(IDS[i], kinds[i], bounds[i], name=f'v{i}') for i in range(3)], cons=cons)
             inst = B.instance(spec)
@@ -169,7 +179,7 @@ def build(chk):
         _, glo, ghi, _ = domain(g['kind'], g['bound'])
         return b_and(same_end(glo, lo), same_end(ghi, hi))
 
-    for variant in ('kinds+bounds', 'constraints', 'all-used'):
+    for variant in ('kinds+bounds', 'constraints', 'all-used', 'representations'):
         chk.harness(f'roundtrip:{variant}', mk(variant), max_paths=20000)
 
     # repeated id inside one linear function (wire-legal, not normalised)
